@@ -682,6 +682,19 @@ def c06_scenarios(n_seeds, seed):
             {"do": "settle"}, {"do": "abort", "h": "p1"}, y,
             call(2, op="Publish", topic=T1, msgs=[{"p": "w5-%d" % k}]), Q,
             {"do": "wait", "h": "p2"}, Q, {"do": "drain", "c": 9}], seed=sd, cap=cap))
+        # W8: the woken consumer's pull request reaches the mailbox, then the consumer goes away
+        # before the actor gets to it (the request is still served; nobody may be left asleep
+        # with a message in the backlog)
+        out.append(scn("c06-W8-%d" % k, pre + [
+            start("p1", 3, op="Pull", sub=S1, max=1, ri=False), {"do": "settle"},
+            start("p2", 4, op="Pull", sub=S1, max=1, ri=False), {"do": "settle"},
+            {"do": "gate", "name": "s.turn", "turns": 0},
+            call(2, op="Publish", topic=T1, msgs=[{"p": "w8-%d-%d" % (k, j)} for j in range(1 + k % 2)]),
+            {"do": "gate", "name": "s.turn", "turns": 1},
+            {"do": "yield", "n": 2 + k % 6}, {"do": "abort", "h": "p1"}, {"do": "yield", "n": 1 + k % 5},
+            {"do": "gate", "name": "s.turn", "turns": -1},
+            Q, {"do": "advance", "ms": 50}, Q,
+            {"do": "abort", "h": "p2"}, {"do": "drain", "c": 9}], seed=sd, cap=cap))
         # W6: a consumer is dropped while it is being woken and its pull waits for room in a
         # full mailbox (the wake-up must be handed on)
         if cap <= 2:
@@ -828,8 +841,119 @@ def plan_c12(prop, tier, seed, t0):
 
 RELEVANT["C12"] = {"send", "s.del1"}
 
+CASE_RE = None
+
+
+def c18_cases(work, quick):
+    """TLC enumerates all strings seg1.project.seg2.id over near-miss segment variants and a small
+    alphabet, with the reference verdict of the grammar."""
+    import re
+    cfgp = os.path.join(work, "Inputs.cfg")
+    alphabet = {"a", "/", "é"} if quick else {"a", "/", "é", "-"}
+    V.write_cfg(cfgp, "CaseSpec", {"Alphabet": alphabet, "MaxLen": 2}, invariants=["GrammarOK", "Emit"])
+    r = V.model_check("Inputs", cfgp, work, workers=8, timeout=1200)
+    if r["stats"] is None or r["error"]:
+        raise V.ToolError("Inputs.tla case enumeration failed: %s\n%s" % (r["error"], r["out"][-1500:]))
+    cases = []
+    for line in r["out"].splitlines():
+        m = re.match(r'^<<"CASE", "(.*)">>$', line.strip())
+        if m:
+            c = json.loads(json.loads('"' + m.group(1) + '"'))
+            cases.append(("".join(c["s"]), c["topic"], c["sub"]))
+    return r, cases
+
+
+def plan_c18(prop, tier, seed, t0):
+    import random
+    quick = tier == "quick"
+    work = os.path.join(V.WORK, prop)
+    shutil.rmtree(work, ignore_errors=True)
+    os.makedirs(work)
+    build_s = V.build_harness()
+    mc, cases = c18_cases(work, quick)
+    strings = sorted({c[0] for c in cases})
+    rnd = random.Random(seed)
+    # random longer strings around the valid shape (sampled, not enumerated)
+    alpha = ["a", "b", "z", "0", "9", "-", "_", "/", "é", "ß", "日", ".", " ", "%"]
+    extra = set()
+    for _ in range(3000 if quick else 60000):
+        proj = "".join(rnd.choice(alpha) for _ in range(rnd.randrange(0, 8)))
+        ident = "".join(rnd.choice(alpha) for _ in range(rnd.randrange(0, 12)))
+        seg = rnd.choice(["/topics/", "/subscriptions/", "/topics", "/topic/", "/subscription/", "//topics/", "/Topics/",
+                          "/topics//", "/tøpics/", "/subscriptionz/"])
+        pre = rnd.choice(["projects/", "projects/", "projects/", "project/", "Projects/", "/projects/", "projects//", ""])
+        extra.add(pre + proj + seg + ident)
+    extra.update(["projects/lets-go/topics/deltio", "projects/p/subscriptions/x", "projects/p/topics/abcdefghi",
+                  "projects/p/topics/a/", "projects/p/topics/a", "projects/p/topics//a", "projects/p/subscriptions/a/",
+                  "projects/p/subscriptions/s", "projects/p/topics/t", "projects//topics/t", "projects/p/topics/"])
+    all_strings = strings + sorted(extra - set(strings))
+    steps = []
+    for s in all_strings:
+        steps.append({"do": "parse", "fn": "topic", "s": s})
+        steps.append({"do": "parse", "fn": "sub", "s": s})
+    n_threads = 8
+    scenarios = []
+    per = (len(steps) + n_threads - 1) // n_threads
+    for k in range(n_threads):
+        scenarios.append(scn("c18-%d" % k, steps[k * per:(k + 1) * per], seed=seed))
+    scn_path = os.path.join(work, "scenarios.ndjson")
+    V.write_scenarios(scn_path, scenarios)
+    traces = V.dvh_replay(scn_path, os.path.join(work, "replay"), n_threads)
+    import concurrent.futures
+    with concurrent.futures.ThreadPoolExecutor(max_workers=8) as ex:
+        results = list(ex.map(lambda p: V.validate_one(p, work, module="TraceInputs", cfg_constants={"Alphabet": {"a"}, "MaxLen": 0},
+                                                       invariants=["Summary"]), traces))
+    n_parse = sum(1 for p in traces for line in open(p) if '"k":"parse"' in line)
+    accepted_names = sum(1 for p in traces for line in open(p) if '"k":"parse"' in line and '"ok":true' in line)
+    violations = []
+    extra_cov = {"parse_calls_validated": n_parse, "strings_enumerated_by_TLC": len(strings), "random_longer_strings": len(all_strings) - len(strings),
+                 "calls_that_accepted": accepted_names,
+                 "exhaustive": False,
+                 "explanation": "all strings seg1.project.seg2.id over the segment variants of Inputs.tla and words up to length 2 are enumerated by TLC; longer strings are sampled"}
+    # reuse finish(): parse events are not histories, so count evaluations ourselves
+    known = V.load_known()
+    n = 0
+    known_lines = set()
+    tool_errors = [r["error"] for r in results if r["error"]]
+    for r in results:
+        for v in r["viol"]:
+            if prop in v.get("props", []):
+                ev = V.event_at(r["trace"], v.get("line", -1))
+                k = V.matches_known(prop, v, ev, known)
+                if k:
+                    known_lines.add("KNOWN-FINDING: property=%s %s (%s)" % (prop, k["what"], k["id"]))
+                    continue
+                n += 1
+                if n <= 10:
+                    path = V.save_replay(prop, n, {"kind": "parse", "violation": v, "event": ev,
+                                                   "scenario": scn("c18-replay", [{"do": "parse", "fn": v.get("fn"), "s": v.get("str")}]),
+                                                   "how": "bin/check C18 --replay <this file>"})
+                    violations.append(("%s parser on %r" % (v.get("fn"), v.get("str")), path))
+    for line in sorted(known_lines):
+        print(line)
+    coverage = {"states": mc["stats"]["distinct"], "transitions": mc["stats"]["generated"],
+                "traces_validated_against_impl": n_parse - n,
+                "samples": [{"case_string": all_strings[len(all_strings) // 2]},
+                            {"recorded_parse_event": json.loads(next(l for l in open(traces[0]) if '"k":"parse"' in l))}],
+                "evaluations": n_parse, "distinct_nontrivial": accepted_names,
+                "rule": "one evaluation = one recorded call of TopicName::try_parse / SubscriptionName::try_parse (plus Display and re-parse of the echo) judged by TLC against Inputs.tla; non-trivial = the parser accepted the string"}
+    coverage.update(extra_cov)
+    wall = time.time() - t0
+    V.write_evidence(prop, tier, seed, "model_checking", coverage, V_ASSUME("the reference grammar of Inputs.tla is the reading of C18's statement given in DESIGN.md 5 (ids are taken literally: no trimming of slashes)"), wall, n)
+    if tool_errors and not violations:
+        raise V.ToolError("; ".join(tool_errors)[:2000])
+    if violations:
+        for what, path in violations[:10]:
+            print("VIOLATION property=%s replay=%s" % (prop, path))
+            V.log("  ", what)
+        print("(%d violating parse calls in total)" % n)
+        return 1
+    print("OK property=%s tier=%s parse_calls=%d cases=%d wall=%.1fs" % (prop, tier, n_parse, len(all_strings), wall))
+    return 0
+
+
 PLANS = {
     "C01": plan_c01, "C02": plan_c02, "C03": plan_c03, "C04": plan_c04, "C05": plan_c05,
     "C08": plan_c08, "C09": plan_c09, "C10": plan_c10, "C11": plan_c11, "C13": plan_c13, "C15": plan_c15,
-    "C12": plan_c12, "C07": plan_c07, "C06": plan_c06, "C16": plan_c16,
+    "C12": plan_c12, "C07": plan_c07, "C06": plan_c06, "C16": plan_c16, "C18": plan_c18,
 }
